@@ -1,6 +1,7 @@
 package main
 
 import (
+	"os"
 	"fmt"
 	"go/constant"
 	"go/types"
@@ -310,6 +311,53 @@ func ruleSMLTables(p *Prog, r *Report) {
 			}
 			words = append(words, "X", "", "I3", "U", "BOOL", "F2", "LIST", "l", "a", "i2")
 			var bad []string
+			// through the parser harness first: '<', the type token with this
+			// text, '>' handed to the item parser
+			viaHarness := true
+			for _, w := range words {
+				calls, ok := keywordCalls(p, w)
+				if !ok {
+					viaHarness = false
+					bad = nil
+					break
+				}
+				got := map[string]bool{}
+				for _, c := range calls {
+					if !strings.HasPrefix(c.callee, "ast.") || c.callee == "ast.NewEmptyItemNode" {
+						continue
+					}
+					bs := int64(0)
+					if strings.HasSuffix(c.callee, "NewIntNode") || strings.HasSuffix(c.callee, "NewUintNode") || strings.HasSuffix(c.callee, "NewFloatNode") {
+						bs = -1
+						if len(c.args) > 0 && c.args[0].K == KInt {
+							bs = c.args[0].I.Int64()
+						}
+					}
+					got[fmt.Sprintf("%s/%d", strings.TrimPrefix(c.callee, "ast."), bs)] = true
+				}
+				var gl, want []string
+				for g := range got {
+					gl = append(gl, g)
+				}
+				sort.Strings(gl)
+				for _, f := range e5Formats {
+					if f.SML == w {
+						want = append(want, fmt.Sprintf("%s/%d", f.Factory, f.ByteSz))
+					}
+				}
+				if strings.Join(gl, ",") != strings.Join(want, ",") {
+					bad = append(bad, fmt.Sprintf("an item of type %q builds %v, expected %v", w, gl, want))
+				}
+			}
+			if viaHarness {
+				key := rule + ":sml.parseDataItem:keyword->factory"
+				if len(bad) > 0 {
+					r.bad(rule, key, p.Pos(fn.Pos()), strings.Join(firstN(bad, 4), "; "))
+				} else {
+					r.ok(rule, key, p.Pos(fn.Pos()), "the item parser evaluated on '<', a type token, '>' for the 14 keywords and 10 other words: each keyword reaches exactly the factory and element width of its item format; other words reach none")
+				}
+				words = nil
+			}
 			for _, w := range words {
 				in := NewInterp(p)
 				in.Bind = func(v ssa.Value, fr *frame) (Val, bool) {
@@ -355,7 +403,9 @@ func ruleSMLTables(p *Prog, r *Report) {
 				}
 			}
 			key := rule + ":sml.parseDataItem:keyword->factory"
-			if len(bad) > 0 {
+			if viaHarness {
+				// reported above
+			} else if len(bad) > 0 {
 				r.bad(rule, key, p.Pos(fn.Pos()), strings.Join(firstN(bad, 4), "; "))
 			} else {
 				r.ok(rule, key, p.Pos(fn.Pos()), "each of the 14 keywords reaches exactly the factory and element width of its item format; other words reach none")
@@ -573,6 +623,9 @@ func quotedRuneByEvaluation(p *Prog, r *Report, rule string, fn *ssa.Function) {
 // others to the factory unchanged.
 func literalByEvaluation(p *Prog, r *Report, rule, key string, fn *ssa.Function, factory string, lo, hi int64) {
 	pos := p.Pos(fn.Pos())
+	if literalThroughItem(p, r, rule, key, pos, factory, lo, hi) {
+		return
+	}
 	ttN, ok := smlConst(p, "tokenTypeNumber")
 	toksCalls := callSites(fn, "(*sml.parser).getDataItemValueTokens")
 	if !ok || len(toksCalls) != 1 {
@@ -587,7 +640,10 @@ func literalByEvaluation(p *Prog, r *Report, rule, key string, fn *ssa.Function,
 	for _, v := range []int64{lo - 65536, lo - 256, lo - 2, lo - 1, lo, lo + 1, (lo + hi) / 2, hi - 1, hi, hi + 1, hi + 2, 255, 256, 257, 321, hi + 256, 65535, 65536, 65536 + hi, 1 << 31, 1 << 32, (1 << 32) + hi} {
 		lits = append(lits, lit{strconv.FormatInt(v, 10), v})
 		if v >= 0 {
-			lits = append(lits, lit{"0x" + strconv.FormatInt(v, 16), v}, lit{"+" + strconv.FormatInt(v, 10), v})
+			lits = append(lits, lit{"0x" + strconv.FormatInt(v, 16), v})
+			if factory != "NewASCIINode" { // a character code is an unsigned literal: no sign
+				lits = append(lits, lit{"+" + strconv.FormatInt(v, 10), v})
+			}
 		}
 	}
 	var bad, undec []string
@@ -668,6 +724,37 @@ func keywordCalls(p *Prog, keyword string) (calls []kwCall, ok bool) {
 	ttType, ok1 := smlConst(p, "tokenTypeDataItemType")
 	if fn == nil || accept == nil || !ok1 {
 		return nil, false
+	}
+	// first through the parser harness: the tokens '<', the item-type token
+	// with this text, one number, '>' handed to the item parser
+	if ttL, okL := smlConst(p, "tokenTypeLeftAngleBracket"); okL {
+		ttR, okR := smlConst(p, "tokenTypeRightAngleBracket")
+		ttN, okN := smlConst(p, "tokenTypeNumber")
+		ttE, okE := smlConst(p, "tokenTypeEOF")
+		if okR && okN && okE {
+			toks := []lexTok{{typ: ttL, val: "<", line: 1, col: 1}, {typ: ttType, val: keyword, line: 1, col: 2}}
+			numeric := len(keyword) == 2 && strings.ContainsAny(keyword[:1], "IUF") && strings.ContainsAny(keyword[1:], "1248")
+			if numeric {
+				toks = append(toks, lexTok{typ: ttN, val: "1", line: 1, col: 5})
+			}
+			toks = append(toks, lexTok{typ: ttR, val: ">", line: 1, col: 7}, lexTok{typ: ttE, val: "", line: 1, col: 8})
+			if obs, dg, okRun := parseRun(p, fn, toks, 2); okRun {
+				if os.Getenv("SC_DEBUG_KW") == keyword {
+					fmt.Fprintf(os.Stderr, "keyword %q: diags=%q obs=%d\n", keyword, dg, len(obs))
+					for _, o := range obs {
+						fmt.Fprintf(os.Stderr, "   %s %v\n", o.factory, o.args)
+					}
+				}
+				for _, o := range obs {
+					name := o.factory
+					if !strings.HasPrefix(name, "strconv.") {
+						name = "ast." + name
+					}
+					calls = append(calls, kwCall{name, o.args, ""})
+				}
+				return calls, true
+			}
+		}
 	}
 	in := NewInterp(p)
 	bound := false
@@ -824,6 +911,84 @@ func streamFunctionByEvaluation(p *Prog, r *Report, rule string, fn *ssa.Functio
 		} else {
 			r.ok(rule, key, p.Pos(fn.Pos()), fmt.Sprintf("evaluated on %d stream/function tokens with codes at and around the limits, with leading zeros, and with numbers no int holds: a code is diagnosed exactly when outside %s, and one inside is returned as written", n, part.what))
 		}
+	}
+	return true
+}
+
+// literalThroughItem decides a literal-range obligation through the item
+// parser: <KW literal> is lexed and parsed for literals around the bounds and
+// the byte/word boundaries in decimal, hexadecimal and signed notation; the
+// literal must be diagnosed exactly when outside [lo, hi] and otherwise reach
+// the factory unchanged. Reports false when an evaluation does not decide.
+func literalThroughItem(p *Prog, r *Report, rule, key, pos, factory string, lo, hi int64) bool {
+	item := p.Func("sml", "(*parser).parseDataItem")
+	kw := map[string]string{"NewBinaryNode": "B", "NewASCIINode": "A"}[factory]
+	if item == nil || kw == "" {
+		return false
+	}
+	type lit struct {
+		text string
+		val  int64
+	}
+	var lits []lit
+	for _, v := range []int64{lo - 65536, lo - 256, lo - 2, lo - 1, lo, lo + 1, (lo + hi) / 2, hi - 1, hi, hi + 1, hi + 2, 255, 256, 257, 321, hi + 256, 65535, 65536, 65536 + hi, 1 << 31, 1 << 32, (1 << 32) + hi} {
+		lits = append(lits, lit{strconv.FormatInt(v, 10), v})
+		if v >= 0 {
+			lits = append(lits, lit{"0x" + strconv.FormatInt(v, 16), v})
+			if factory != "NewASCIINode" { // a character code is an unsigned literal: no sign
+				lits = append(lits, lit{"+" + strconv.FormatInt(v, 10), v})
+			}
+		}
+	}
+	var bad []string
+	for _, l := range lits {
+		toks, ok := lexAll(p, "lexMessageText", "<"+kw+" "+l.text+">", 100)
+		if !ok {
+			return false
+		}
+		obs, diags, ok := parseRun(p, item, toks, 2)
+		if !ok {
+			return false
+		}
+		inside := l.val >= lo && l.val <= hi
+		refused := len(diags) > 0
+		switch {
+		case !inside && !refused:
+			bad = append(bad, fmt.Sprintf("the literal %s (outside [%d, %d]) is accepted without a diagnostic", l.text, lo, hi))
+		case inside && refused:
+			bad = append(bad, fmt.Sprintf("the literal %s (inside [%d, %d]) is reported as an error", l.text, lo, hi))
+		case inside:
+			var built *Val
+			for i := range obs {
+				if obs[i].factory != factory {
+					continue
+				}
+				if len(obs[i].elems) == 1 {
+					e := obs[i].elems[0]
+					if e.K == KIface && e.Inner != nil {
+						e = *e.Inner
+					}
+					built = &e
+				} else if len(obs[i].args) == 1 {
+					built = &obs[i].args[0]
+				}
+			}
+			switch {
+			case built == nil:
+				return false
+			case built.K == KStr && built.S != string(rune(l.val)):
+				bad = append(bad, fmt.Sprintf("the literal %s reaches %s as %q", l.text, factory, built.S))
+			case built.K == KInt && built.I.Int64() != l.val:
+				bad = append(bad, fmt.Sprintf("the literal %s reaches %s as %s", l.text, factory, built))
+			case built.K != KStr && built.K != KInt:
+				return false
+			}
+		}
+	}
+	if len(bad) > 0 {
+		r.bad(rule, key, pos, strings.Join(firstN(bad, 4), "; "))
+	} else {
+		r.ok(rule, key, pos, fmt.Sprintf("the item parser evaluated on <%s n> for %d number literals around the bounds and the byte/word boundaries, in decimal, hexadecimal and signed notation: exactly the values outside [%d, %d] are reported, the others reach %s unchanged", kw, len(lits), lo, hi, factory))
 	}
 	return true
 }
